@@ -17,7 +17,7 @@ HDLC_CONST = 16 * 1024
 P1_CONST = 48 * 1024
 RULE = (
     "run = (reader, pattern, chunk size): HDLC patterns {all flags, flag + short junk, flag + lone escape, valid frames back to back (two flags / one shared flag), never-ending frame, "
-    "frame longer than its length field followed by endless flags, random bytes} under two configurations; P1 patterns {'/' ident lines without '!', '/' + bytes without LF, '////..' and '/abc/abc..' without LF, "
+    "frame longer than its length field followed by endless flags, random bytes} under three configurations; P1 patterns {'/' ident lines without '!', '/' + bytes without LF, '////..' and '/abc/abc..' without LF, "
     "ident line + endless data lines, ident line + endless bytes without LF, ever-changing '/' lines, valid readouts back to back, random ASCII, random bytes, text without '/' and LF}; chunk sizes {1 (first 128 KiB), 64, 4096, 65536} and delimiter-aligned calls (ending right after every LF / 7th LF for P1, every flag / 7th flag for HDLC); stream length 1 MiB (quick) / 16 MiB (thorough). "
     f"oracle: deep size after read() <= {HDLC_CONST} (HDLC) / {P1_CONST} (P1) + 3 x chunk bytes at every sample, and max over the second half <= max(1.25 x max over the first half + chunk + 1 KiB, a quarter of the constant + chunk) (jittered sampling and a floor, so that a bounded saw-tooth or a few spiky long messages are not mistaken for growth). "
     "evaluations = read() calls made; distinct non-trivial = distinct (reader, configuration, pattern, chunk size) runs with >= 16 size samples."
@@ -39,7 +39,7 @@ def plan(tier: str, seed: int) -> list[dict]:
     total = (1 << 20) if tier == "quick" else (16 << 20)
     shards = []
     for pat in HDLC_PATTERNS:
-        for cfg in ((False, True), (True, False)):
+        for cfg in ((False, True), (True, False), (False, False)):
             for ch in CHUNKS:
                 shards.append({"reader": "hdlc", "cfg": list(cfg), "pattern": pat, "chunk": ch, "total": total if ch != 1 else 128 * 1024})
     for pat in P1_PATTERNS:
@@ -214,7 +214,7 @@ def replay(case: dict, ctx) -> None:
 
 def finalize(agg: dict, tier: str):
     reasons = []
-    want = (len(HDLC_PATTERNS) * 2 + len(P1_PATTERNS)) * len(CHUNKS)
+    want = (len(HDLC_PATTERNS) * 3 + len(P1_PATTERNS)) * len(CHUNKS)
     if len(agg["digests"]) < want:
         reasons.append(f"only {len(agg['digests'])} of {want} (reader, pattern, chunk) runs produced >= 16 size samples")
     return {"runs_expected": want}, reasons
